@@ -34,10 +34,13 @@ func IsSafeTrustedResourceURLPrefix(prefix string) bool {
 	return safeTrustedResourceURLPrefixPattern.MatchString(prefix)
 }
 
-var safeTrustedResourceURLPrefixPattern = regexp.MustCompile(`(?i)^(?:` +
-	`(?:https:)?//[0-9a-z.:\[\]-]+/|` +
+// The pattern is ASCII case-insensitive. It deliberately does not use the (?i)
+// flag, whose Unicode case folding would also admit U+017F for 's' and U+212A
+// for 'k' (e.g. "http\u017f://host/").
+var safeTrustedResourceURLPrefixPattern = regexp.MustCompile(`^(?:` +
+	`(?:[hH][tT][tT][pP][sS]:)?//[0-9a-zA-Z.:\[\]-]+/|` +
 	`/[^/\\]|` +
-	`about:blank#)`)
+	`[aA][bB][oO][uU][tT]:[bB][lL][aA][nN][kK]#)`)
 
 // URLContainsDoubleDotSegment returns whether the given URL or URL substring
 // contains the double dot-segment ".." (RFC3986 3.3) in its percent-encoded or
